@@ -140,6 +140,10 @@ class Ctx:
         self.stores: List[Any] = []
         self.global_cache: Dict[Any, Any] = {}
         self.yielded: List[Any] = []
+        self.call_log: List[Any] = []  # calls made through contracts on this path, in order (ghost; see speclib.CALLS)
+        self.top_contract = None
+        self.top_ns = None
+        self.entry_measure = None
 
     # ---- fresh symbols
     def fresh(self, base: str, sort):
@@ -321,6 +325,15 @@ class Engine:
     def feasible(self, ctx: Ctx, cond) -> bool:
         """Path pruning only (an over-approximation is sound): quantifier-free part of the path condition."""
         qf = [p for p in ctx.pc if not has_quantifier(p)]
+        if ctx.bound:
+            # inside a comprehension / set-building loop: instances of the universally quantified facts of the path
+            # condition at the bound constants (sound: instances of assumptions), so that preconditions stated over all
+            # elements of a sequence decide branches on the arbitrary element
+            for p in ctx.pc:
+                if z3.is_quantifier(p) and p.is_forall() and p.num_vars() == 1:
+                    for bc in ctx.bound:
+                        if bc.sort() == p.var_sort(0):
+                            qf.append(z3.substitute_vars(p.body(), bc))
         key = (tuple(p.get_id() for p in qf), cond.get_id())
         hit = self._feas_cache.get(key)
         if hit is not None:
@@ -351,12 +364,28 @@ class Engine:
                 out.update(cs.fields)
         return out
 
-    def class_invariants(self, ctx: Ctx, obj: Obj, cls: Optional[ClassInfo] = None) -> List[Tuple[str, Any]]:
+    def class_invariants(self, ctx: Ctx, obj: Obj, cls: Optional[ClassInfo] = None, partial: bool = False,
+                         exempt=()) -> List[Tuple[str, Any]]:
         out = []
         for c in (cls or obj.cls).mro():
+            if (c.name + ".*") in exempt:
+                continue  # every clause of this class is exempt (Contract.inv_exempt): not even evaluated
             cs = self.reg.classes.get(c.qualname)
             if cs and cs.invariant:
-                r = self.run_spec(ctx, cs.invariant, obj)
+                if partial and cs.whole_object:
+                    # object of a subclass still under construction: whole-object clauses are not yet meaningful
+                    old = speclib.CTX
+                    speclib.CTX = ctx
+                    ctx.spec_mode += 1
+                    try:
+                        r = cs.invariant(obj, skip=set(cs.whole_object)) if _accepts_skip(cs.invariant) else None
+                    finally:
+                        ctx.spec_mode -= 1
+                        speclib.CTX = old
+                    if r is None:
+                        raise EngineLimit("invariant of %s has whole-object clauses but does not accept skip=" % c.name)
+                else:
+                    r = self.run_spec(ctx, cs.invariant, obj)
                 if isinstance(r, dict):
                     out.extend(("%s.%s" % (c.name, k), v) for k, v in r.items())
                 else:
@@ -417,6 +446,18 @@ class Engine:
             cls = V.ExtClass(cls.name)
         if isinstance(cls, V.ExtClass):
             return self.lib.isinstance_ext(ctx, v, cls.name)
+        if isinstance(cls, V.ClassTagV):
+            # isinstance(v, type(y)): the dynamic class of v is a subclass of the class whose tag is given
+            if isinstance(v, OptV):
+                return speclib_and(self.b_not(v.is_none), self.isinstance_of(ctx, v.val, cls))
+            if not isinstance(v, Obj):
+                return False
+            cands = [v.cls] if v.exact else v.cls.all_subclasses()
+            alts = []
+            for c1 in cands:
+                for c2 in c1.mro():
+                    alts.append(z3.And(self.tag_fn(v.ref) == self.class_id(c1), cls.term == self.class_id(c2)))
+            return z3.Or(*alts) if alts else False
         if isinstance(cls, V.ClassVal):
             cls = cls.cls
         if isinstance(v, Obj):
@@ -439,7 +480,7 @@ class Engine:
 
     def assume_class_range(self, ctx: Ctx, obj: Obj):
         """Closed world: the dynamic class of an abstract object is one of the repository's subclasses."""
-        subs = [c for c in obj.cls.all_subclasses()]
+        subs = [c for c in obj.cls.instantiable_subclasses()]
         ctx.assume(z3.Or(*[self.tag_fn(obj.ref) == self.class_id(c) for c in subs]))
 
     @staticmethod
@@ -458,9 +499,15 @@ class Engine:
             if z3.is_int(v) or z3.is_real(v):
                 return v != 0
             if z3.is_string(v):
+                from . import strmodel as _sm
+
+                if _sm.ENABLED and _sm.lower_arg(v) is not None:
+                    return _sm.truth_of_lower(_sm.lower_arg(v))
                 return z3.Length(v) > 0
         if isinstance(v, OptV):
             return speclib_and(self.b_not(v.is_none), self.truth(ctx, v.val))
+        if isinstance(v, V.SymClosure):
+            return v.tag != 0
         if isinstance(v, PyList):
             return len(v.items) > 0
         if isinstance(v, tuple):
@@ -486,13 +533,15 @@ class Engine:
             if v.cls.lookup("__len__") is not None:
                 raise EngineLimit("truthiness through __len__ of %s" % v.cls.name)
             return True
-        if isinstance(v, (V.ClassVal, V.Closure, V.BoundMethod, V.Builtin, V.EnumV, RecV, ExcVal, V.ExtClass)):
+        if isinstance(v, (V.ClassVal, V.Closure, V.BoundMethod, V.Builtin, V.EnumV, RecV, ExcVal, V.ExtClass, V.Recorder)):
             return True
         if isinstance(v, V.Opaque):
             raise EngineLimit("truthiness of opaque value %s" % v.what)
         raise EngineLimit("truthiness of %r" % (v,))
 
     def py_eq(self, ctx: Ctx, a, b) -> Any:
+        if isinstance(a, V.SymClosure) or isinstance(b, V.SymClosure):
+            return self.py_is(ctx, a, b)
         if isinstance(a, OptV) or isinstance(b, OptV):
             if not isinstance(a, OptV):
                 a, b = b, a
@@ -503,6 +552,8 @@ class Engine:
                 both_some = speclib_and(self.b_not(a.is_none), self.b_not(b.is_none), self.py_eq(ctx, a.val, b.val))
                 return speclib_or(both_none, both_some)
             return speclib_and(self.b_not(a.is_none), self.py_eq(ctx, a.val, b))
+        if isinstance(a, V.PathV) and isinstance(b, V.PathV):
+            return a.term == b.term  # pure paths compare by value
         if a is None or b is None:
             if a is None and b is None:
                 return True
@@ -510,7 +561,15 @@ class Engine:
             if isinstance(other, (z3.ExprRef, Obj, RecV, SymSet, SymSeq, PyList, tuple, int, str, bool, V.EnumV)):
                 return False
             raise EngineLimit("== None of %r" % (other,))
-        if isinstance(a, z3.ExprRef) or isinstance(b, z3.ExprRef):
+        if isinstance(a, z3.ExprRef) or isinstance(b, z3.ExprRef) or (
+                isinstance(a, V.FractionV) and isinstance(b, (V.FractionV, int))) or (
+                isinstance(b, V.FractionV) and isinstance(a, int)):
+            from . import strmodel as _sm
+
+            if _sm.ENABLED:
+                for lit, term in ((a, b), (b, a)):
+                    if isinstance(lit, str) and isinstance(term, z3.ExprRef) and _sm.lower_arg(term) is not None:
+                        return _sm.eq_literal(self, ctx, lit, term)
             ta, tb = self.coerce_pair(a, b)
             if ta is None:
                 return False
@@ -528,6 +587,9 @@ class Engine:
                 return self.py_eq(ctx, a.term, b.term)
             return False
         if isinstance(a, Obj) and isinstance(b, Obj):
+            hook = self.eq_spec(a, b)
+            if hook is not None:
+                return hook
             m = a.cls.lookup("__eq__")
             if m is not None:
                 r = self.call_function(ctx, m, [a, b], {})
@@ -564,6 +626,22 @@ class Engine:
         if type(a) is not type(b):
             return False
         raise EngineLimit("== of %r and %r" % (a, b))
+
+    def eq_spec(self, a: Obj, b: Obj):
+        """Interface contract of `==` declared by a class specification (`eq(a, b)` -> clause) for a hierarchy whose
+           abstract base does not define __eq__ while implementations do (dynamic dispatch of == on a non-exact receiver).
+           Applies when either operand is a non-exact object of such a hierarchy; the implementations' __eq__ are
+           obligated to the same clause by their own contracts."""
+        if a.exact and a.cls.lookup("__eq__") is not None:
+            return None  # exact receiver with its own __eq__: the real method is used (contract / inlining)
+        for c in a.cls.mro():
+            cs = self.reg.classes.get(c.qualname)
+            fn = getattr(cs, "eq", None) if cs else None
+            if fn is not None and b.cls.is_subclass_of(c):
+                ctx = speclib.CTX or a.ctx
+                r = self.run_spec(ctx, fn, a, b) if speclib.CTX is None else fn(a, b)
+                return lift_bool(r) if not isinstance(r, bool) else r
+        return None
 
     def class_tag_eq(self, ctx, a, b):
         def tag(v):
@@ -638,6 +716,10 @@ class Engine:
     def verify_function(self, qualname: str, contract: Optional[Contract] = None) -> FunctionResult:
         contract = contract or self.reg.contracts[qualname]
         finfo = self.repo.functions.get(contract.qualname)
+        if finfo is None and "@" in contract.qualname and getattr(contract.impl, "body_slice", None):
+            finfo = self.sliced_function(contract.qualname, contract.impl.body_slice)
+        if finfo is None:
+            finfo = self.nested_function(contract.qualname)
         res = FunctionResult(contract.qualname)
         if finfo is None:
             res.limits.append("function %s not found in the repository sources" % contract.qualname)
@@ -653,6 +735,54 @@ class Engine:
                 res.instances += 1
                 self._verify_instance(finfo, contract, cls, inst, res)
         return res
+
+    def sliced_function(self, qualname: str, spec: dict) -> Optional[FuncInfo]:
+        """A contiguous statement block of a repository function, cut out mechanically by AST position and verified as a
+        function of the variables it reads: the top-level statements after the assignment to the local name
+        spec['after_assign'] up to (excluding) the assignment to the attribute spec['until_assign_attr'].
+        Parameters: self (for methods) and spec['params'].  What the slice drops is everything outside the block."""
+        base = qualname.split("@")[0]
+        outer = self.repo.functions.get(base)
+        if outer is None:
+            return None
+        body = outer.node.body
+        start = end = None
+        for k, st in enumerate(body):
+            tgts = st.targets if isinstance(st, ast.Assign) else [st.target] if isinstance(st, ast.AnnAssign) else []
+            for t in tgts:
+                if isinstance(t, ast.Name) and t.id == spec["after_assign"] and start is None:
+                    start = k + 1
+                if isinstance(t, ast.Attribute) and t.attr == spec["until_assign_attr"] and start is not None and end is None:
+                    end = k
+        if start is None or end is None or end <= start:
+            return None
+        names = ([outer.params[0]] if outer.cls is not None else []) + list(spec.get("params", []))
+        node = ast.FunctionDef(name=outer.name, args=ast.arguments(posonlyargs=[], args=[ast.arg(arg=n, annotation=None)
+                                                                                      for n in names],
+                                                                     vararg=None, kwonlyargs=[], kw_defaults=[], kwarg=None,
+                                                                     defaults=[]),
+                               body=body[start:end], decorator_list=[], returns=None, lineno=body[start].lineno,
+                               col_offset=0)
+        fi = FuncInfo(qualname, node, outer.module, outer.cls)
+        fi.name = outer.name
+        fi.slice_of = (base, body[start].lineno, body[end - 1].end_lineno)
+        return fi
+
+    def nested_function(self, qualname: str) -> Optional[FuncInfo]:
+        """A `def` nested directly in a repository function, addressed as <outer qualname>.<name>.  It is verified as a
+        function of its parameters; names of the enclosing scope are visible only as far as a specification declares
+        them (`outer_env` of the contract), anything else is an unknown name (engine limit)."""
+        outer_q, _, name = qualname.rpartition(".")
+        outer = self.repo.functions.get(outer_q)
+        if outer is None:
+            return None
+        for node in ast.walk(outer.node):
+            if isinstance(node, ast.FunctionDef) and node.name == name and node is not outer.node:
+                fi = FuncInfo(qualname, node, outer.module, None)
+                fi.outer = outer
+                fi.self_recursive_name = name
+                return fi
+        return None
 
     def _verify_instance(self, finfo: FuncInfo, contract: Contract, cls, inst, res: FunctionResult):
         worklist: List[List[int]] = [[]]
@@ -709,7 +839,7 @@ class Engine:
             i = z3.FreshConst(z3.IntSort(), "i")
             cls = self.repo.cls(v.kind.clsname)
             el = z3.Select(v.arr, i)
-            rng = z3.Or(*[self.tag_fn(el) == self.class_id(c) for c in cls.all_subclasses()])
+            rng = z3.Or(*[self.tag_fn(el) == self.class_id(c) for c in cls.instantiable_subclasses()])
             ctx.add_axiom(z3.ForAll([i], z3.Implies(z3.And(0 <= i, i < v.length), rng), patterns=[el]))
         elif isinstance(v, OptV):
             self.assume_wellformed(ctx, v.val)
@@ -734,12 +864,32 @@ class Engine:
             guard = z3.Or(*[self.tag_fn(r) == self.class_id(c) for c in cls.all_subclasses()])
             pats = _uf_apps_on(body, r)
             own = [p for p in pats if p.decl().name().startswith("fld!%s!" % cls.name)]
-            pats = own or pats
+            own_ids = set(p.get_id() for p in own)
+            inherited = [p for p in pats if p.decl().name().startswith("fld!") and p.get_id() not in own_ids]
+            pats = (own + inherited) or pats
             out.append(("class-invariant:" + cls.name, "established by %s.__init__ (obligation inv#...)" % cls.name,
                         z3.ForAll([r], z3.Implies(guard, body), patterns=pats[:8])))
             for k_, a_ in enumerate(ctx.axioms):
                 out.append(("class-invariant:%s/aux%d" % (cls.name, k_), "definition of a canonical filtered / mapped "
                             "sequence used by the invariant", a_))
+        # closed world for object-valued fields of abstract objects: the dynamic class of the field value is one of the
+        # repository's subclasses of the declared class
+        for q, cs in self.reg.classes.items():
+            if q not in self.repo.classes:
+                continue
+            cls = self.repo.classes[q]
+            for fname, kind in cs.fields.items():
+                if isinstance(kind, V.ObjOf):
+                    try:
+                        fcls = self.repo.cls(kind.clsname)
+                    except KeyError:
+                        continue
+                    f = self.uf("fld!%s!%s" % (cls.name, fname), V.RefSort, V.RefSort)
+                    guard = z3.Or(*[self.tag_fn(r) == self.class_id(c) for c in cls.all_subclasses()])
+                    rng = z3.Or(*[self.tag_fn(f(r)) == self.class_id(c) for c in fcls.instantiable_subclasses()])
+                    out.append(("closed-world:%s.%s" % (cls.name, fname),
+                                "closed world: the dynamic class of an object-valued field is a repository subclass of its "
+                                "declared class", z3.ForAll([r], z3.Implies(guard, rng), patterns=[f(r)])))
         return out
 
     def kind_from_annotation(self, finfo: FuncInfo, ann):
@@ -776,7 +926,12 @@ class Engine:
                 if inst is not None:
                     for k, v in inst.items():
                         if k.startswith("self."):
+                            if isinstance(v, V.Kind):
+                                v = ctx.fresh_kind(k, v)
+                                self.assume_wellformed(ctx, v)
                             self_obj.fields[k[5:]] = v
+                if self_obj.fields is not None and not is_init:
+                    V.bind_owner(self_obj)
                 args[p.arg] = self_obj
                 continue
             args[p.arg] = self.make_param(ctx, finfo, contract, p.arg, p.annotation, inst)
@@ -784,7 +939,16 @@ class Engine:
             raise EngineLimit("*args/**kwargs in a function under contract")
         ns = NS(**{("self" if (self_obj is not None and k == all_args[0].arg) else k): v for k, v in args.items()})
         ns.__dict__["ctx"] = ctx
-        ns.__dict__["old"] = snapshot_ns(ns)
+        if self_obj is not None and not is_init:
+            from . import mutstate
+
+            ns.__dict__["old"] = mutstate.snapshot(self_obj)  # pre-state of a mutable receiver
+        for pname, pval in list(args.items()):
+            if isinstance(pval, Obj) and pval.fields is not None and pval is not self_obj:
+                from . import mutstate
+
+                ns.__dict__["old_" + pname] = mutstate.snapshot(pval)  # pre-state of a materialised (mutable) argument
+        ns.__dict__["old"] = make_old_view(ns, ns.__dict__.get("old"))
         if self_obj is not None and not is_init:
             for label, inv in self.class_invariants(ctx, self_obj):
                 ctx.assume(lift_bool(inv))
@@ -793,13 +957,25 @@ class Engine:
         if res is not None and res.entry_pc is None:
             res.entry_pc = list(ctx.pc)
             res.entry_axioms = list(ctx.axioms)
-        ctx.entry_ns = ns.old
+        ctx.top_contract, ctx.top_ns = contract, ns
+        ctx.entry_measure = None
+        if contract.decreases is not None:
+            ctx.entry_measure = as_measure(self.run_spec(ctx, contract.decreases, ns))
+        ctx.entry_old = ns.__dict__.get("old")
         env = Env(finfo.module, None, finfo)
         env.vars.update(args)
+        if getattr(finfo, "self_recursive_name", None):
+            # a nested function under contract: its own name is bound (recursive calls go through its contract)
+            env.vars[finfo.self_recursive_name] = V.Closure(finfo, None)
+            for k_, v_ in (getattr(contract.impl, "outer_env", None) or {}).items():
+                env.vars[k_] = v_(ctx) if callable(v_) else v_
         outcome = None
         try:
             if finfo.is_generator:
                 ctx.yielded = []
+            if getattr(self, "semantic_decorators", None) is not None and self.semantic_decorators(finfo):
+                # the function under contract is the *decorated* function (pyvc.ext_expr)
+                raise ReturnSig(self.call_decorated(ctx, finfo, [args[p.arg] for p in all_args], {}))
             self.exec_block(ctx, finfo.node.body, env)
             result = None
             if finfo.is_generator:
@@ -828,8 +1004,28 @@ class Engine:
             c = self.run_spec(ctx, cond, ns)
             ctx.oblige("%s/noraise-implies#not-%s" % (short(ctx.func), xname), z3.Not(lift_bool(c)), kind="raises")
         if self_obj is not None and (is_init or self._is_mutable(cls)):
-            for label, inv in self.class_invariants(ctx, self_obj, contract_cls(self, contract, cls)):
+            # a constructor verified for a subclass receiver establishes the invariants of its own class (and bases) only
+            for label, inv in self.class_invariants(ctx, self_obj, finfo.cls if (is_init and finfo.cls is not None) else cls,
+                                                    exempt=contract.inv_exempt):
+                if label in contract.inv_exempt:
+                    continue
                 ctx.oblige("%s/inv#%s" % (short(ctx.func), label), lift_bool(inv), kind="inv")
+
+    def _owns_state(self, cls) -> bool:
+        for c in cls.mro():
+            cs = self.reg.classes.get(c.qualname)
+            if cs and getattr(cs, "owns_state", False):
+                return True
+        return False
+
+    def _invariant_at_calls(self, cls) -> bool:
+        """Class specs with `invariant_at_calls = True`: the class invariant of a materialised receiver is obligated
+           before a call of one of its methods and assumed again afterwards (bit reader / writer)."""
+        for c in cls.mro():
+            cs = self.reg.classes.get(c.qualname)
+            if cs and getattr(cs, "invariant_at_calls", False):
+                return True
+        return False
 
     def _is_mutable(self, cls) -> bool:
         for c in cls.mro():
@@ -837,6 +1033,28 @@ class Engine:
             if cs and cs.mutable:
                 return True
         return False
+
+    def _new_exc(self, ctx: Ctx, contract: Contract, ns: NS, xname: str) -> ExcVal:
+        """The exception a callee raises according to its contract; `exc_fields(s, class name) -> {field: value}` of the
+        contract states the location fields it carries (checked by `_check_exc_fields` when the callee is verified)."""
+        exc = ExcVal(self.exc_class(xname))
+        ef = getattr(contract.impl, "exc_fields", None) or getattr(contract, "exc_fields", None)
+        if ef is not None:
+            for fname, val in (self.run_spec(ctx, ef, ns, xname) or {}).items():
+                exc.fields[fname] = val
+        return exc
+
+    def _check_exc_fields(self, ctx: Ctx, contract: Contract, ns: NS, exc: ExcVal):
+        ef = getattr(contract.impl, "exc_fields", None) or getattr(contract, "exc_fields", None)
+        if ef is None or not isinstance(exc.cls, ClassInfo):
+            return
+        from . import mutstate
+
+        for fname, val in (self.run_spec(ctx, ef, ns, exc.clsname) or {}).items():
+            actual = self.lib.exc_attr(ctx, exc, fname)
+            c = mutstate.identical(self, ctx, actual, val)
+            ctx.oblige("%s/raises-carries#%s#%s" % (short(ctx.func), exc.clsname, fname), lift_bool(c), kind="raises",
+                       info={"origin": exc.fields.get("__origin__")})
 
     def _check_raise(self, ctx: Ctx, contract: Contract, ns: NS, exc: ExcVal):
         # `raises_here`: exceptional postconditions for exceptions raised by a `raise` statement of this very function
@@ -851,12 +1069,20 @@ class Engine:
                     ctx.oblige("%s/raises-here#%s" % (short(ctx.func), xname), lift_bool(c), kind="raises")
                     break
         matched = None
+        self._check_exc_fields(ctx, contract, ns, exc)
+        for xname, cond in getattr(contract, "raises_implies", {}).items():
+            if self.exc_matches(exc, xname):
+                ns.__dict__["exc"] = exc
+                c = self.run_spec(ctx, cond, ns)
+                ctx.oblige("%s/raises#%s" % (short(ctx.func), xname), lift_bool(c), kind="raises",
+                           info={"origin": exc.fields.get("__origin__")})
+                return
         for xname in contract.raises:
             if self.exc_matches(exc, xname):
                 matched = xname
                 break
         if matched is None:
-            for xname, cond in contract.raises_only_if.items():
+            for xname, cond in list(contract.raises_if.items()) + list(contract.raises_only_if.items()):
                 if self.exc_matches(exc, xname):
                     ns.__dict__["exc"] = exc
                     c = self.run_spec(ctx, cond, ns)
@@ -865,17 +1091,32 @@ class Engine:
                     return
             for xname in contract.may_raise:
                 if self.exc_matches(exc, xname):
+                    self._check_raise_post(ctx, contract, ns, exc)
                     return
             ctx.oblige("%s/noraise#%s" % (short(ctx.func), exc.clsname), z3.BoolVal(False), kind="noraise",
                        info={"exception": exc.clsname, "origin": exc.fields.get("__origin__")})
             return
         cond = contract.raises[matched]
+        self._check_raise_post(ctx, contract, ns, exc)
         if cond is None:
             return
         ns.__dict__["exc"] = exc
         c = self.run_spec(ctx, cond, ns)
         ctx.oblige("%s/raises#%s" % (short(ctx.func), matched), lift_bool(c), kind="raises",
                    info={"origin": exc.fields.get("__origin__")})
+
+    def _check_raise_post(self, ctx: Ctx, contract: Contract, ns: NS, exc: ExcVal):
+        """Exceptional postconditions (`raises_post`: exception class name -> fn(s) -> dict label -> clause): what holds
+           of the final state whenever an exception of that class escapes (one-sided, e.g. frame conditions)."""
+        rp = getattr(contract.impl, "raises_post", None)
+        if not rp:
+            return
+        ns.__dict__["exc"] = exc
+        for xname, fn in rp.items():
+            if self.exc_matches(exc, xname):
+                r = self.run_spec(ctx, fn, ns)
+                for label, c in (r.items() if isinstance(r, dict) else enumerate(r or [])):
+                    ctx.oblige("%s/raises-post#%s#%s" % (short(ctx.func), xname, label), lift_bool(c), kind="raises")
 
     def exc_matches(self, exc: ExcVal, name: str) -> bool:
         if isinstance(exc.cls, ClassInfo):
@@ -977,6 +1218,12 @@ class Engine:
             x = z3.FreshConst(cur.elem_sort, "x")
             new = z3.Lambda([x], z3.Or(z3.Select(cur.term, x), z3.Select(other.term, x)))
             cur.term = new
+            return
+        if isinstance(st.op, ast.Add) and isinstance(cur, PyList) and isinstance(rhs, SymSeq):
+            # list += symbolic list: the (function-allocated) list becomes a symbolic sequence
+            if not cur.fresh:
+                ctx.oblige("%s/frame#aliased-mutation" % short(ctx.func), False, kind="frame")
+            self.assign(ctx, st.target, self.lib.seq_concat(ctx, cur, rhs), env)
             return
         if isinstance(st.op, ast.Add) and isinstance(cur, PyList):
             if not cur.fresh:
@@ -1126,7 +1373,13 @@ class Engine:
         if isinstance(target, ast.Name):
             env.vars[target.id] = v
         elif isinstance(target, (ast.Tuple, ast.List)):
-            items = self.iter_concrete(ctx, v)
+            if isinstance(v, SymSeq) and not any(isinstance(t, ast.Starred) for t in target.elts):
+                # unpacking a symbolic-length sequence: ValueError unless the length is exactly the number of targets
+                if not ctx.decide(v.length == len(target.elts)):
+                    raise PyRaise(ExcVal(V.ExtClass("ValueError")))
+                items = [v.at(ctx, z3.IntVal(k)) for k in range(len(target.elts))]
+            else:
+                items = self.iter_concrete(ctx, v)
             if len(items) != len(target.elts):
                 raise PyRaise(ExcVal(V.ExtClass("ValueError")))
             for t, x in zip(target.elts, items):
@@ -1182,6 +1435,12 @@ class Engine:
             v = self.static_to_value(r)
             if v is not None:
                 return v
+        imp = module.imports.get(name)
+        if imp is not None and imp[0] == "from" and imp[1] in self.repo.modules and name not in module.assigns:
+            src = self.repo.modules[imp[1]]
+            if imp[2] in src.assigns or (imp[2] in src.imports and src is not module):
+                # a module-level value (not a class / function) imported from a repository module (possibly re-exported)
+                return self.global_name(ctx, src, imp[2])
         if name in module.assigns:
             key = (module.name, name)
             if key in ctx.global_cache:
@@ -1236,6 +1495,10 @@ class Engine:
                 if o.fields is not None:
                     raise EngineLimit("spec reads unset field %s.%s" % (o.cls.name, name))
                 return self.abstract_field(ctx, o, name)
+            if o.ghost.get("$constructed-by-contract"):
+                # an object whose constructor was applied through its contract: a field the class specification does not
+                # declare is unknown here, not absent
+                raise EngineLimit("field %s.%s is not declared in the class specification" % (o.cls.name, name))
             raise PyRaise(ExcVal(V.ExtClass("AttributeError")))
         if isinstance(o, V.ClassVal):
             if name in o.cls.nested:
@@ -1298,6 +1561,17 @@ class Engine:
             vals = [self.truth(ctx, self.eval(ctx, v, env)) for v in e.values]
             if all(isinstance(v, (bool, z3.BoolRef)) for v in vals):
                 return speclib_and(*vals) if is_and else speclib_or(*vals)
+        if getattr(ctx, "pure_bool", 0):
+            # predicate of a filter over a symbolic sequence: every operand is evaluated (no short-circuit fork); this is
+            # accepted only if no operand takes a decision or raises (then the strict and the lazy reading coincide)
+            n0 = len(ctx.taken)
+            try:
+                vals = [self.truth(ctx, self.eval(ctx, v, env)) for v in e.values]
+            except PyRaise:
+                raise EngineLimit("an operand of and/or inside a symbolic filter predicate may raise")
+            if len(ctx.taken) != n0 or not all(isinstance(v, (bool, z3.BoolRef)) for v in vals):
+                raise EngineLimit("an operand of and/or inside a symbolic filter predicate branches")
+            return speclib_and(*vals) if is_and else speclib_or(*vals)
         last = None
         for i, sub in enumerate(e.values):
             last = self.eval(ctx, sub, env)
@@ -1368,6 +1642,11 @@ class Engine:
         return self.lib.order(ctx, op, a, b)
 
     def py_is(self, ctx, a, b):
+        if isinstance(a, V.SymClosure) or isinstance(b, V.SymClosure):
+            c, other = (a, b) if isinstance(a, V.SymClosure) else (b, a)
+            if other is None:
+                return c.tag == 0
+            raise EngineLimit("`is` between a symbolic closure and %r" % (other,))
         if isinstance(a, OptV) or isinstance(b, OptV):
             o, other = (a, b) if isinstance(a, OptV) else (b, a)
             if other is None:
@@ -1397,6 +1676,9 @@ class Engine:
         c = self.truth(ctx, self.eval(ctx, e.test, env))
         if isinstance(c, bool):
             return self.eval(ctx, e.body if c else e.orelse, env)
+        r = self._optional_ifexp(ctx, e, env, c)
+        if r is not None:
+            return r
         if _pure_simple(e.body) and _pure_simple(e.orelse):
             x = self.eval(ctx, e.body, env)
             y = self.eval(ctx, e.orelse, env)
@@ -1406,6 +1688,34 @@ class Engine:
         if ctx.decide(c):
             return self.eval(ctx, e.body, env)
         return self.eval(ctx, e.orelse, env)
+
+    def _optional_ifexp(self, ctx, e, env, c):
+        """`None if x is None else int(x)` (and the mirrored form) for an Optional x: the Optional of the converted
+        value, without forking the path.  Only for the builtin conversions int / bool / str of a plain name."""
+        def is_none_const(n):
+            return isinstance(n, ast.Constant) and n.value is None
+
+        def conv_of_name(n):
+            return (isinstance(n, ast.Call) and isinstance(n.func, ast.Name) and n.func.id in ("int", "bool", "str")
+                    and len(n.args) == 1 and not n.keywords and isinstance(n.args[0], ast.Name))
+
+        if is_none_const(e.body) and conv_of_name(e.orelse):
+            other, none_cond = e.orelse, c
+        elif is_none_const(e.orelse) and conv_of_name(e.body):
+            other, none_cond = e.body, z3.Not(c)
+        else:
+            return None
+        found, x = env.lookup(other.args[0].id)
+        if not found or not isinstance(x, OptV) or not isinstance(self.global_name(ctx, env.module, other.func.id), V.Builtin):
+            return None
+        if not (isinstance(x.is_none, z3.ExprRef) and z3.simplify(none_cond == x.is_none).eq(z3.BoolVal(True))):
+            return None
+        v = x.val
+        if other.func.id == "int" and isinstance(v, z3.ExprRef) and z3.is_int(v):
+            return OptV(x.is_none, v)
+        if other.func.id == "str" and isinstance(v, z3.ExprRef) and z3.is_string(v):
+            return OptV(x.is_none, v)
+        return None
 
     def ex_Tuple(self, ctx, e, env):
         out = []
@@ -1571,6 +1881,15 @@ class Engine:
             if set(vals) != set(callee.fields):
                 raise PyRaise(ExcVal(V.ExtClass("TypeError")))
             return RecV(callee.name, {f: vals[f] for f in callee.fields})
+        if isinstance(callee, V.Recorder):
+            if kwargs:
+                raise EngineLimit("keyword arguments to a recorded callable")
+            callee.calls.items.append(tuple(args))
+            return None
+        if isinstance(callee, V.SymClosure):
+            from . import mutstate
+
+            return mutstate.call_symclosure(self, ctx, callee, args, kwargs)
         if isinstance(callee, V.Partial):
             kw = dict(callee.kwargs)
             kw.update(kwargs)
@@ -1624,7 +1943,14 @@ class Engine:
                 out.append(c.methods[finfo.name])
         return out
 
-    def find_contract(self, finfo: FuncInfo, selfv) -> Optional[Contract]:
+    def find_contract(self, finfo: FuncInfo, selfv, dynamic: bool = False) -> Optional[Contract]:
+        if dynamic and isinstance(selfv, Obj) and not selfv.exact:
+            # interface contract of a dynamically dispatched method whose base class also has a body of its own
+            # (registered as "<qualname>@dynamic"; the body contract under the plain name serves super() calls)
+            for base in ([finfo.cls] + finfo.cls.mro()[1:] if finfo.cls is not None else []):
+                c = self.reg.contracts.get("%s.%s@dynamic" % (base.qualname, finfo.name))
+                if c is not None:
+                    return c
         c = self.reg.contracts.get(finfo.qualname)
         if c is not None:
             return c
@@ -1640,10 +1966,30 @@ class Engine:
         selfv = args[0] if (finfo.cls is not None and args and not finfo.is_static) else None
         if dynamic:
             finfo = self.resolve_dynamic(ctx, finfo, selfv)
-        contract = self.find_contract(finfo, selfv) if closure is None or closure.env is None else None
+        raw = getattr(closure, "raw", False)  # the undecorated body of a decorated def (pyvc.ext_expr)
+        if raw:
+            contract = None
+        elif closure is None or closure.env is None:
+            contract = self.find_contract(finfo, selfv, dynamic)
+        else:
+            contract = self.reg.contracts.get(finfo.qualname)  # a contract stated on a nested function
         inline_ok = finfo.qualname in self.reg.inline
         verifying_self = finfo.qualname == ctx.func.split("[")[0].split("<")[0]
         if contract is not None and not inline_ok:
+            if dynamic and getattr(contract.impl, "dispatch", False) and isinstance(selfv, Obj) and not selfv.exact \
+                    and finfo.cls is not None:
+                # opt-in dynamic dispatch by case split on the receiver's class: every override has its own contract
+                for m in self.overriders(finfo, selfv.cls):
+                    classes = [c for c in m.cls.all_subclasses()
+                               if c.lookup(finfo.name) is m and c.is_subclass_of(selfv.cls)]
+                    if not classes:
+                        continue
+                    if m.qualname not in self.reg.contracts:
+                        raise EngineLimit("dynamic dispatch to %s which has no contract of its own" % m.qualname)
+                    cond = z3.Or(*[self.tag_fn(selfv.ref) == self.class_id(c) for c in classes])
+                    if ctx.decide(cond):
+                        narrowed = Obj(m.cls, False, selfv.ref, None, ctx)
+                        return self.call_function(ctx, m, [narrowed] + list(args[1:]), kwargs)
             return self.apply_contract(ctx, finfo, contract, args, kwargs)
         # no contract: inline (nested defs, lambdas, private helpers, declared-inlinable accessors)
         if finfo.cls is not None and isinstance(selfv, Obj) and not selfv.exact and dynamic:
@@ -1652,8 +1998,11 @@ class Engine:
                 return self.dispatch_inline(ctx, finfo, ov, selfv, args, kwargs)
         nested = closure is not None and closure.env is not None
         private_helper = finfo.cls is not None and finfo.name.startswith("_") and not finfo.name.startswith("__")
+        if not raw and not nested and getattr(self, "semantic_decorators", None) is not None \
+                and self.semantic_decorators(finfo):
+            return self.call_decorated(ctx, finfo, args, kwargs)
         if not (nested or inline_ok or private_helper or finfo.is_property or isinstance(finfo.node, ast.Lambda)
-                or finfo.qualname in self.reg.inline):
+                or finfo.qualname in self.reg.inline or raw):
             raise EngineLimit("call of %s: no contract and not declared inlinable" % finfo.qualname)
         return self.inline_call(ctx, finfo, args, kwargs, closure)
 
@@ -1715,41 +2064,70 @@ class Engine:
             nsd["self" if (finfo.cls is not None and not finfo.is_static and params and k == params[0]) else k] = v
         ns = NS(**nsd)
         ns.__dict__["ctx"] = ctx
-        ns.__dict__["old"] = snapshot_ns(ns)
+        if isinstance(nsd.get("self"), Obj) and nsd["self"].fields is not None and finfo.name != "__init__":
+            from . import mutstate
+
+            ns.__dict__["old"] = mutstate.snapshot(nsd["self"])  # pre-state of a materialised (mutable) receiver
+            if self._owns_state(nsd["self"].cls):
+                for av in bound.values():
+                    if isinstance(av, Obj) and av.fields is not None and av is not nsd["self"] and not self._owns_state(av.cls):
+                        mutstate.publish(self, ctx, av)
+        for pname, pval in list(nsd.items()):
+            if pname != "self" and isinstance(pval, Obj) and pval.fields is not None:
+                from . import mutstate
+
+                if self._owns_state(pval.cls):
+                    ns.__dict__["old_" + pname] = mutstate.snapshot(pval)  # pre-state of a materialised (mutable) argument
+                elif getattr(contract.impl, "publishes_args", False):
+                    mutstate.publish(self, ctx, pval)  # a fresh immutable object handed to a constructor that keeps it
+        ns.__dict__["old"] = make_old_view(ns, ns.__dict__.get("old"))
         callee = short(contract.qualname)
         for label, c in self.run_spec(ctx, lambda: contract.clauses("pre", ns)):
             ctx.oblige("%s/pre#%s#%s" % (short(ctx.func), callee, label), lift_bool(c), kind="pre")
             ctx.assume(lift_bool(c))
         if not finfo.name == "__init__" and isinstance(nsd.get("self"), Obj) and nsd["self"].fields is not None \
-                and self._is_mutable(nsd["self"].cls) and finfo.cls is not None:
+                and self._invariant_at_calls(nsd["self"].cls) and finfo.cls is not None:
             # the callee assumes the class invariant of its (mutable) receiver: it must hold at the call
+            # (opt-in per class spec: `invariant_at_calls = True`)
             for label, inv in self.class_invariants(ctx, nsd["self"]):
                 ctx.oblige("%s/pre#%s#inv.%s" % (short(ctx.func), callee, label), lift_bool(inv), kind="pre")
-        dec = getattr(contract.impl, "decreases", None)
-        if dec is not None and contract.qualname == ctx.func.split("[")[0].split("<")[0]:
-            # recursion through the function's own contract: the measure must strictly decrease and stay >= 0
-            entry_ns = getattr(ctx, "entry_ns", None)
-            if entry_ns is None:
-                raise EngineLimit("recursive call but no entry state recorded")
-            m_new = self.run_spec(ctx, dec, ns)
-            m_old = self.run_spec(ctx, dec, entry_ns)
-            ctx.oblige("%s/decreases#%s" % (short(ctx.func), callee), z3.And(m_new >= 0, m_new < m_old), kind="decreases")
+        if contract.decreases is not None and getattr(ctx, "entry_measure", None) is not None and not ctx.spec_mode:
+            # recursion group: the callee's termination measure must be lexicographically below the measure that the
+            # function under verification had at entry, and bounded below (a scalar measure is a 1-tuple)
+            cm = as_measure(self.run_spec(ctx, contract.decreases, ns))
+            ctx.oblige("%s/decreases#%s" % (short(ctx.func), callee), lex_less(cm, ctx.entry_measure), kind="decreases")
+        log_entry = None
+        if not ctx.spec_mode:
+            log_entry = {"callee": contract.qualname, "ns": ns, "index": len(ctx.call_log), "result": None,
+                         "returned": False}
+            ctx.call_log.append(log_entry)
         # exceptional outcomes: the callee may raise any X whose condition holds, and returns normally only if none does
         pending_raise = False
         names = list(contract.raises.items())
         for idx, (xname, cond) in enumerate(names):
             if cond is None:
                 if ctx.choose(2) == 1:
-                    raise PyRaise(ExcVal(self.exc_class(xname)))
+                    raise PyRaise(self._new_exc(ctx, contract, ns, xname))
                 continue
             c = lift_bool(self.run_spec(ctx, cond, ns))
             if ctx.decide(c):
                 later = any(cn is not None for _, cn in names[idx + 1:])
                 if not later or ctx.choose(2) == 0:
-                    raise PyRaise(ExcVal(self.exc_class(xname)))
+                    raise PyRaise(self._new_exc(ctx, contract, ns, xname))
                 pending_raise = True
         if pending_raise:
             raise PathEnd()  # some condition held: a normal return is excluded by the contract
+        for xname, cond in getattr(contract, "raises_implies", {}).items():
+            c = lift_bool(self.run_spec(ctx, cond, ns))
+            if self.feasible(ctx, c) and ctx.choose(2) == 1:
+                ctx.assume(c)
+                raise PyRaise(self._new_exc(ctx, contract, ns, xname))
+        for xname, cond in contract.raises_if.items():
+            if ctx.choose(2) == 1:
+                exc = ExcVal(self.exc_class(xname))
+                ns.__dict__["exc"] = exc
+                ctx.assume(lift_bool(self.run_spec(ctx, cond, ns)))
+                raise PyRaise(exc)
         for xname, cond in contract.raises_only_if.items():
             c = lift_bool(self.run_spec(ctx, cond, ns))
             if ctx.decide(c):
@@ -1757,14 +2135,20 @@ class Engine:
                     raise PyRaise(ExcVal(self.exc_class(xname)))
         for xname in contract.may_raise:
             if ctx.choose(2) == 1:
-                raise PyRaise(ExcVal(self.exc_class(xname)))
+                raise PyRaise(self._new_exc(ctx, contract, ns, xname))
         is_init = finfo.name == "__init__"
         result = None
         if is_init:
             selfv = ns.self
             self.havoc_init_fields(ctx, selfv, finfo.cls)
+            if isinstance(selfv, Obj) and selfv.fields is not None:
+                V.bind_owner(selfv)
+            if isinstance(selfv, Obj) and selfv.cls is finfo.cls:
+                selfv.ghost["$constructed-by-contract"] = True
         else:
-            if contract.returns is not None:
+            if contract.value is not None:
+                result = self.run_spec(ctx, contract.value, ns)
+            elif contract.returns is not None:
                 result = ctx.fresh_kind("ret!" + finfo.name, contract.returns)
                 self.assume_wellformed(ctx, result)
             if contract.modifies and isinstance(nsd.get("self"), Obj) and nsd["self"].fields is not None:
@@ -1772,6 +2156,22 @@ class Engine:
                     k, _ = self.field_kind(nsd["self"].cls, fname)
                     if k is not None:
                         nsd["self"].fields[fname] = ctx.fresh_kind("havoc." + fname, k)
+                V.bind_owner(nsd["self"])
+            hv = getattr(contract.impl, "havoc", None)
+            if hv is not None:
+                # fields of materialised objects reachable from the arguments that the callee may assign
+                for hentry in self.run_spec(ctx, hv, ns):
+                    hobj, fname = hentry[0], hentry[1]
+                    if not isinstance(hobj, Obj) or hobj.fields is None:
+                        raise EngineLimit("havoc of a field of a non-materialised object")
+                    k, _ = self.field_kind(hobj.cls, fname)
+                    if len(hentry) > 2:
+                        k = hentry[2]  # the kind of the new value is given by the contract (e.g. a list that grew)
+                    if k is None:
+                        raise EngineLimit("no field kind declared for %s.%s" % (hobj.cls.qualname, fname))
+                    hobj.fields[fname] = ctx.fresh_kind("havoc." + fname, k)
+                    self.assume_wellformed(ctx, hobj.fields[fname])
+                    V.bind_owner(hobj)
             # parameters that are materialised objects: `modifies_params = {"reader": ["_bit_offset"]}`
             for pname, fnames in (getattr(contract.impl, "modifies_params", None) or {}).items():
                 po = nsd.get(pname)
@@ -1783,10 +2183,16 @@ class Engine:
                 elif po is not None:
                     raise EngineLimit("callee modifies parameter %s which is not a materialised object here" % pname)
         ns.__dict__["result"] = result
+        if log_entry is not None:
+            log_entry["result"] = result
+            log_entry["returned"] = True
         for label, c in self.run_spec(ctx, lambda: contract.clauses("post", ns)):
             ctx.assume(lift_bool(c))
         if is_init:
-            for label, inv in self.class_invariants(ctx, ns.self, finfo.cls):
+            partial = isinstance(ns.self, Obj) and ns.self.cls is not finfo.cls
+            for label, inv in self.class_invariants(ctx, ns.self, finfo.cls, partial=partial, exempt=contract.inv_exempt):
+                if label in contract.inv_exempt:
+                    continue
                 ctx.assume(lift_bool(inv))
         else:
             # a method of a mutable class re-establishes the class invariant of the objects it modified (proved as
@@ -1798,7 +2204,7 @@ class Engine:
                 if isinstance(nsd.get(pname), Obj) and nsd[pname].fields is not None:
                     touched.append(nsd[pname])
             for o in touched:
-                if self._is_mutable(o.cls):
+                if self._invariant_at_calls(o.cls):
                     for label, inv in self.class_invariants(ctx, o):
                         ctx.assume(lift_bool(inv))
         return result
@@ -1992,28 +2398,60 @@ def _uf_apps_on(body, r):
     return out
 
 
+def _accepts_skip(fn) -> bool:
+    import inspect
+
+    try:
+        return "skip" in inspect.signature(fn).parameters
+    except (TypeError, ValueError):
+        return False
+
+
 def contract_cls(engine, contract, cls):
     return cls
 
 
-def snapshot_ns(ns):
-    """Pre-state for `s.old`: parameters as they are now; materialised (mutable) objects are copied field by field
-       (bytearray values are copied too, since they are updated in place)."""
-    out = {}
+def make_old_view(ns, self_snap):
+    """The pre-state `s.old` of a contract.  For a method of a materialised receiver it is the snapshot of the receiver
+       (attributes = its fields, `s.old._pending`), which additionally answers `.self` (itself) and `.<param>` (snapshots
+       of the parameters, materialised objects copied); for plain functions it is a namespace of parameter snapshots."""
+    from . import mutstate
+
+    params = {}
     for k, v in ns.__dict__.items():
-        if k in ("ctx", "old", "result"):
+        if k in ("ctx", "old", "result", "self", "exc") or k.startswith("old_"):
             continue
-        out[k] = _snap(v)
-    return NS(**out)
+        params[k] = mutstate.snapshot(v)
+    if isinstance(self_snap, Obj):
+        self_snap.ghost["self"] = self_snap
+        for k, v in params.items():
+            self_snap.ghost.setdefault(k, v)
+        return self_snap
+    if isinstance(ns.__dict__.get("self"), Obj) and ns.self.fields is not None:
+        params["self"] = mutstate.snapshot(ns.self)
+    elif "self" in ns.__dict__:
+        params["self"] = ns.self
+    return NS(**params)
 
 
-def _snap(v):
-    if isinstance(v, Obj) and v.fields is not None:
-        o = Obj(v.cls, v.exact, v.ref, {n: _snap(x) for n, x in v.fields.items()}, v.ctx)
-        return o
-    if isinstance(v, V.BytesV) and v.mutable:
-        return V.BytesV(v.arr, v.length, mutable=True, view=v.view, concrete=v.concrete, fresh=v.fresh)
-    return v
+def as_measure(m):
+    """A termination measure: a tuple / list (lexicographic) or a scalar (1-tuple)."""
+    if isinstance(m, (tuple, list)):
+        return tuple(m)
+    return (m,)
+
+
+def lex_less(a, b):
+    """(a1, a2, ...) < (b1, b2, ...) lexicographically over the naturals (every component of `a` is also >= 0)."""
+    def t(x):
+        return z3.IntVal(x) if isinstance(x, int) else x
+
+    a, b = [t(x) for x in a], [t(x) for x in b]
+    n = min(len(a), len(b))
+    alts = []
+    for k in range(n):
+        alts.append(z3.And(*([a[j] == b[j] for j in range(k)] + [a[k] < b[k]])))
+    return z3.And(z3.And(*[x >= 0 for x in a]), z3.Or(*alts))
 
 
 def speclib_and(*xs):
